@@ -1,6 +1,8 @@
 package main
 
 import (
+	"go/token"
+	"go/ast"
 	"fmt"
 	"go/types"
 	"sort"
@@ -30,6 +32,8 @@ func runC02(p *Program, r *Report) {
 	ruleR024(p, r)
 	ruleR025(p, r)
 	ruleR026(p, r)
+	r.Rule("R02.9", "E2", 8, "requests do not meet in shared state: the translator's service object is shared by all connections, so its request methods neither store into it (or into objects its fields point to) nor call, on such an object, a method that stores into its own receiver - per-request values (the request's context, the client's identity) live in objects allocated by the request; otherwise a concurrent request of another client runs with this request's identity")
+	ruleR029(p, r)
 }
 
 func ruleR021(p *Program, r *Report) {
@@ -883,4 +887,96 @@ func ruleR027(p *Program, r *Report) {
 
 func init() {
 	mut("C02", "client id reduced to its base name in ring paths", "keystore/v2/keystore/hmac.go", "	return filepath.Join(clientPrefix, string(clientID), hmacSymmetricSuffix)", "	return filepath.Join(clientPrefix, filepath.Base(string(clientID)), hmacSymmetricSuffix)", "R02.7", "unchanged")
+}
+
+// ---- R02.9
+func ruleR029(p *Program, r *Report) {
+	// methods that store into their own (pointer) receiver's fields
+	mutates := func(callee *ssa.Function) string {
+		if callee == nil || callee.Blocks == nil || callee.Signature.Recv() == nil || len(callee.Params) == 0 {
+			return ""
+		}
+		recv := callee.Params[0]
+		if _, isPtr := recv.Type().Underlying().(*types.Pointer); !isPtr {
+			return ""
+		}
+		for _, b := range callee.Blocks {
+			for _, in := range b.Instrs {
+				if st, ok := in.(*ssa.Store); ok {
+					if fa, ok := st.Addr.(*ssa.FieldAddr); ok && fa.X == ssa.Value(recv) {
+						if stt, ok := recv.Type().Underlying().(*types.Pointer).Elem().Underlying().(*types.Struct); ok {
+							return stt.Field(fa.Field).Name()
+						}
+						return "a field"
+					}
+				}
+			}
+		}
+		return ""
+	}
+	n := 0
+	for _, fn := range p.SrcFuncs("cmd/acra-translator/common") {
+		if fn.Signature.Recv() == nil || !strings.HasSuffix(fn.Signature.Recv().Type().String(), "common.TranslatorService") || fn.Blocks == nil {
+			continue
+		}
+		if !ast.IsExported(fn.Name()) {
+			continue
+		}
+		n++
+		recv := fn.Params[0]
+		// values that point into the shared object: the receiver, addresses of its fields, loads of pointer-typed fields, and so on
+		shared := map[ssa.Value]bool{recv: true}
+		for changed := true; changed; {
+			changed = false
+			for _, b := range fn.Blocks {
+				for _, in := range b.Instrs {
+					v, ok := in.(ssa.Value)
+					if !ok || shared[v] {
+						continue
+					}
+					switch x := in.(type) {
+					case *ssa.FieldAddr:
+						if shared[x.X] {
+							shared[v], changed = true, true
+						}
+					case *ssa.UnOp:
+						if x.Op == token.MUL && shared[x.X] {
+							if _, isPtr := x.Type().Underlying().(*types.Pointer); isPtr {
+								shared[v], changed = true, true
+							}
+						}
+					}
+				}
+			}
+		}
+		bad := ""
+		for _, b := range fn.Blocks {
+			for _, in := range b.Instrs {
+				switch x := in.(type) {
+				case *ssa.Store:
+					if shared[x.Addr] {
+						if _, isRecv := x.Addr.(*ssa.Parameter); !isRecv {
+							bad = "stores into the shared service object at " + p.Pos(x.Pos())
+						}
+					}
+				case *ssa.Call:
+					if x.Call.IsInvoke() || len(x.Call.Args) == 0 || !shared[x.Call.Args[0]] || x.Call.Args[0] == ssa.Value(recv) {
+						continue
+					}
+					if f := mutates(x.Call.StaticCallee()); f != "" {
+						bad = "calls " + fnName(x.Call.StaticCallee()) + " on an object the service shares between requests; that method stores into its receiver (" + f + ") at " + p.Pos(x.Pos())
+					}
+				}
+			}
+		}
+		r.Check(bad == "", "R02.9", fnName(fn), "request state is not kept in the shared service", p.Pos(fn.Pos()), "no store into the service or into objects it points to", bad+": two requests that run at the same time share that value, and a request of one client can be processed with the context (identity) of another")
+	}
+	if n < 8 {
+		r.Bad("R02.9", "cmd/acra-translator/common", "TranslatorService request methods", "-", fmt.Sprintf("%d exported methods found, 8 confirmed by reading", n))
+	}
+}
+
+
+func init() {
+	mut("C02", "a request method writes a field of the shared translator service", "cmd/acra-translator/common/service.go", "func (service *TranslatorService) Decrypt(ctx context.Context, acraStruct, clientID, additionalContext []byte) ([]byte, error) {\n	logger := logging.GetLoggerFromContext(ctx)", "func (service *TranslatorService) Decrypt(ctx context.Context, acraStruct, clientID, additionalContext []byte) ([]byte, error) {\n	service.data = service.data\n	logger := logging.GetLoggerFromContext(ctx)", "R02.9", "Decrypt")
 }
